@@ -164,8 +164,16 @@ pub fn gen_text(r: &mut Rng, len: usize) -> String {
     s
 }
 
+pub static MAX_TEXT_LEN: std::sync::atomic::AtomicUsize = std::sync::atomic::AtomicUsize::new(5000);
+
 /// Boundary-biased length.
 pub fn gen_len(r: &mut Rng) -> usize {
+    let l = gen_len_raw(r);
+    let max = MAX_TEXT_LEN.load(std::sync::atomic::Ordering::Relaxed);
+    if l > max { l % (max + 1) } else { l }
+}
+
+fn gen_len_raw(r: &mut Rng) -> usize {
     match r.below(20) {
         0 => 0,
         1 => 1,
@@ -190,5 +198,49 @@ pub fn short_len(r: &mut Rng) -> usize {
         6..=7 => r.range(1, 9),
         8 => r.range(8, 20),
         _ => r.range(0, 40),
+    }
+}
+
+/// Identity hasher for already-mixed u64 keys (cheap under Miri).
+#[derive(Default, Clone, Copy)]
+pub struct IdHasher(u64);
+impl std::hash::Hasher for IdHasher {
+    fn finish(&self) -> u64 {
+        self.0
+    }
+    fn write(&mut self, bytes: &[u8]) {
+        for b in bytes {
+            self.0 = self.0.rotate_left(8) ^ *b as u64;
+        }
+    }
+    fn write_u64(&mut self, i: u64) {
+        self.0 = i;
+    }
+    fn write_usize(&mut self, i: usize) {
+        self.0 = i as u64;
+    }
+}
+pub type IdBuild = std::hash::BuildHasherDefault<IdHasher>;
+pub type U64Set = std::collections::HashSet<u64, IdBuild>;
+pub type U64Map<V> = std::collections::HashMap<u64, V, IdBuild>;
+
+/// Sorted-vector set of u64 (cheap under Miri, compact).
+#[derive(Default, Clone)]
+pub struct SigSet(pub Vec<u64>);
+impl SigSet {
+    pub fn insert(&mut self, v: u64) -> bool {
+        match self.0.binary_search(&v) {
+            Ok(_) => false,
+            Err(i) => {
+                self.0.insert(i, v);
+                true
+            }
+        }
+    }
+    pub fn len(&self) -> usize {
+        self.0.len()
+    }
+    pub fn iter(&self) -> std::slice::Iter<'_, u64> {
+        self.0.iter()
     }
 }
